@@ -40,6 +40,19 @@ def gen_ops(rng, proto, nops, with_timeout):
             peer = "s"
         elif r < 0.6:
             rsp = mb.matching_rsp(rng, req)
+            if rng.random() < 0.3:
+                # a reply of the request's own kind that does NOT answer it: another echoed address / value / quantity, another item count
+                k0 = rsp[0]
+                if k0 in ("WSR", "WMC", "WMR"):
+                    rsp = rng.choice([(k0, rsp[1] ^ 1, rsp[2]), (k0, rsp[1], (rsp[2] + 1) & 0xFFFF)])
+                elif k0 == "WSC":
+                    rsp = rng.choice([(k0, rsp[1] ^ 1, rsp[2]), (k0, rsp[1], not rsp[2])])
+                elif k0 == "MWR":
+                    rsp = rng.choice([(k0, rsp[1] ^ 1, rsp[2], rsp[3]), (k0, rsp[1], rsp[3], rsp[2] ^ 0x10), (k0, rsp[1], rsp[2], rsp[3] ^ 1)])
+                elif k0 in ("RHR", "RIR", "RWMR"):
+                    rsp = (k0, rsp[1][:-1] if rng.random() < 0.5 else rsp[1] + [7])
+                elif k0 in ("RC", "RDI"):
+                    rsp = (k0, rsp[1][:-8] if len(rsp[1]) > 8 and rng.random() < 0.5 else rsp[1] + [True] * 8)
             pdu = mb.spec_rsp_pdu(rsp)
             if proto == "rtu" and not cligen.rtu_supported_rsp_pdu(pdu):
                 pdu = cligen.exc_pdu(fc, 1)
@@ -71,7 +84,7 @@ class PROP(Prop):
     shard_min = 1
     kernel_sample = 16
     rule = ("random operation sequences over the 13 operations (generic call, five typed reads, five typed writes, slave selection, set_timeout / reset_timeout, connect with and "
-            "without explicit slave / timeout, timeouts up to Duration::MAX) against a scripted peer (reply / exception / mismatching reply / silence under a timeout / close), executed with "
+            "without explicit slave / timeout, timeouts up to Duration::MAX) against a scripted peer (reply / reply of the same kind with another echo or item count / exception / mismatching reply / silence under a timeout / close), executed with "
             "the real synchronous client AND the real asynchronous client over loopback TCP and over a pseudo-terminal (RTU); both compared with "
             "each other and with the model's prediction, on the frames the peer received and on every result.  non-trivial = sequence with >= 2 "
             "operations")
